@@ -286,6 +286,11 @@ fn timers_property(tier: Tier) -> i32 {
     if let Some(s) = lsample {
         samples.push(json!({"api": "legacy", "history": s}));
     }
+    let mut sst = TStats::default();
+    let scripted = timers::legacy::run_scale(&mut sst, &mut lfound);
+    per.push(json!({"api": "legacy capability through Core, scripted scale family (explicit list, every member executed step by step; no sampling)",
+        "why": "bookkeeping keyed on timer ids may depend on how many ids were handed out in between (thresholds such as 64 / 128 are out of reach of the depth-bounded tree)",
+        "scripted_histories": scripted, "timers_per_history": "64-131", "steps": sst.steps}));
     for f in lfound {
         rep.violation(mc_kit::Violation {
             key: format!("legacy/{}", f.fail.key),
